@@ -462,6 +462,42 @@ def unit_torchrl(item):
     return p
 
 
+def unit_large(item):
+    """30 cities, half of them almost coincident twins (1e-4 apart): above ~25 points distance kernels may switch to a
+    matrix-product formula that cancels catastrophically for near-coincident points.  Reported costs after reset and
+    after every admitted 2-opt move from two start tours are compared with float64 tour lengths."""
+    _, tier = item
+    p = Partial()
+    n = 30
+    base = [((7 * i) % 15 / 15.0 + 0.03, (11 * i) % 15 / 15.0 + 0.02) for i in range(15)]
+    locs = [list(b) for b in base] + [[b[0] + 1e-4, b[1] - 1e-4] for b in base]
+    env = make_env("tsp", n)
+    # start tours: index order, and every city followed by its twin (15 edges of length ~1.4e-4)
+    recs = [rec_of_order(list(range(n))), rec_of_order([x for i in range(15) for x in (i, i + 15)])]
+    td = reset_with_tours(env, "tsp", locs, recs)
+    rows0 = rows_of(td)
+    for r in rows0:
+        r["reward"] = 0.0
+        L = tour_len(locs, r["rec_current"])
+        p.add(states=1, evaluations=1)
+        if abs(r["cost_current"] - L) > TOL * (1 + L) or abs(r["cost_bsf"] - L) > TOL * (1 + L):
+            p.violation(dict(property=PID, env="tsp_kopt", config="n30_twins", observable="cost_current", trigger="reset"), dict(kind="improve_large"), f"tsp n=30 with twin cities: after reset cost_current {r['cost_current']} / cost_bsf {r['cost_bsf']} vs tour length {L}")
+    moves = admitted_moves(env, "tsp", td)
+    idx, acts = [], []
+    for r, ms in enumerate(moves):
+        for a in ms:
+            idx.append(r)
+            acts.append(a)
+    nxt = step(env, td[torch.tensor(idx)], acts)
+    after = rows_of(nxt)
+    p.add(transitions=len(idx), evaluations=len(idx), distinct_count=len(idx), traces_validated_against_impl=len(idx))
+    for q, (r, a) in enumerate(zip(idx, acts)):
+        report(p, "tsp", "n30_twins", locs, rows0[r], after[q], a, "mask_move_large", (rows0[r]["rec_current"], []))
+    p.outcome("tsp|n30")
+    p.sample(dict(part="large instance with twin cities", n=n, moves=len(idx)), cap=1)
+    return p
+
+
 def work_items(tier):
     items = []
     q = tier == "quick"
@@ -485,6 +521,7 @@ def work_items(tier):
         if ws == 0:
             items.append(("policy", "n2s_ape", "pdp", 5, 0, [list(x) for x in PTS[:5]], tier, ws))
             items.append(("policy", "dact_ape", "tsp", 5, 2, [list(x) for x in PTS[:5]], tier, ws))
+    items.append(("large", tier))
     items.append(("torchrl", "tsp", 5, [list(x) for x in PTS[:5]], tier))
     items.append(("torchrl", "pdp", 5, [list(x) for x in PTS[:5]], tier))
     items.append(("init", "tsp", 5, tier))
@@ -497,7 +534,7 @@ def work_items(tier):
 
 
 def unit(item):
-    return dict(moves=unit_moves, random=unit_random, policy=unit_policy, init=unit_init, torchrl=unit_torchrl)[item[0]](item)
+    return dict(moves=unit_moves, random=unit_random, policy=unit_policy, init=unit_init, torchrl=unit_torchrl, large=unit_large)[item[0]](item)
 
 
 def main(tier):
@@ -524,6 +561,9 @@ def replay(rec):
         order = cycle_order(r)
         bad = order is None or (rec["env"] == "pdp" and not precedence_ok(order))
         return bad, f"initial solution {r}"
+    if rec.get("kind") == "improve_large" or rec.get("config") == "n30_twins":
+        p = unit_large(("large", "quick"))
+        return bool(p.violations), "; ".join(v["msg"] for v in p.violations[:2]) or "costs of the 30-city instance equal the float64 tour lengths"
     if rec.get("kind") == "improve_torchrl" or rec.get("config") == "torchrl":
         p = unit_torchrl(("torchrl", rec["env"], len(rec["locs"]), rec["locs"], "quick"))
         return bool(p.violations), "; ".join(v["msg"] for v in p.violations[:2]) or "both states of every torchrl-mode transition are consistent"
